@@ -69,6 +69,9 @@ TEXTS = {
     "C19": {"engine": "procs", "design_ref": "DESIGN.md 3/C19", "technique": "PBT with real processes: generated chunk sequences on both streams over several commands and concurrent jobs; byte-equality oracle against the log store and the log API",
             "level_text": "Each case runs 1-6 jobs x 1-4 tasks at the same time; every task has 1-4 commands that write generated, marker-prefixed chunks to stdout/stderr (0 B to 300 KB, 8 MB in the thorough tier, partial lines, binary or UTF-8), some through interpreter builtins; the oracle is byte equality between what was written, FileOutputStore.Reader and GET /job/logs, plus 404 for foreign tasks and unknown jobs.",
             "level_note": "Trusted: cmd/vhelper emit writes exactly its spec; the relative order between stdout and stderr is not defined by the statement and not asserted."},
+    "C20": {"engine": "procs", "design_ref": "DESIGN.md 3/C20", "technique": "PBT over a process-tree grammar with real processes; /proc oracle after the job is reported finished; known findings excluded by construction and replayed",
+            "level_text": "Generated process trees (leaf, sh -c with foreground/background children, pipelines, subshells, interpreter-level background commands; leaves may ignore SIGINT and/or detach from the task's output pipe) run as a task of a real job beside a bystander job; the job is canceled (or a forced shutdown begins) at a generated instant; after the job is reported finished the process table must hold no live process with the job's marker (250 ms allowance), the report must come within kill timeout + 1.5 s, and the bystander's processes must be untouched. The two shapes of the recorded findings are excluded from generation (the number of exclusions is reported) and replayed deterministically for the KNOWN-FINDING lines.",
+            "level_note": "Trusted: /proc, cmd/vhelper hang, POSIX sh (dash). Timing allowances are generous; a starved machine could still make the latency clause fail, none was observed. Processes that change their process group are outside the statement."},
 }
 
 ENGINES = [
@@ -81,7 +84,4 @@ ENGINES = [
     {"name": "httpauth", "path": "harness/httpauth", "serves_properties": ["C14"], "kind_free_text": "router walk + generated credentials against the server's http.Handler"},
 ]
 
-NOT_APPLICABLE = [
-    {"property_id": p, "reason": "check not built yet in this round (planned engine in DESIGN.md); not claimed until it exists"}
-    for p in ["C20"]
-]
+NOT_APPLICABLE = []
